@@ -15,19 +15,29 @@ pub mod c06;
 #[cfg(kani)]
 pub mod c03;
 #[cfg(kani)]
+pub mod c07;
+#[cfg(kani)]
 pub mod c08;
 #[cfg(kani)]
 pub mod c09;
 #[cfg(kani)]
 pub mod c10;
 #[cfg(kani)]
+pub mod c11;
+#[cfg(kani)]
 pub mod c12;
+#[cfg(kani)]
+pub mod c14;
 #[cfg(kani)]
 pub mod c15;
 #[cfg(kani)]
 pub mod c17;
 #[cfg(kani)]
 pub mod c18;
+#[cfg(kani)]
+pub mod c19;
+#[cfg(kani)]
+pub mod c20;
 #[cfg(kani)]
 pub mod instances;
 #[cfg(kani)]
